@@ -107,6 +107,11 @@ class Recognizer:
         self.start = start
         for e in self.rules.values():
             self._check_refs(e)
+        self._regex = None
+        try:
+            self._regex = re.compile(self._to_regex(("ref", self.start), ()))
+        except RecursionError:
+            self._regex = None  # recursive grammar: interpreter only
 
     def _check_refs(self, e):
         k = e[0]
@@ -119,11 +124,6 @@ class Recognizer:
         elif k in "?*+":
             self._check_refs(e[1])
 
-        self._regex = None
-        try:
-            self._regex = re.compile(self._to_regex(("ref", self.start), ()))
-        except RecursionError:
-            self._regex = None  # recursive grammar: interpreter only
 
     def _to_regex(self, e, stack) -> str:
         """Mechanical translation to a Python regex; only valid for non-recursive grammars (checked).
